@@ -71,6 +71,48 @@ __CPROVER_ensures(/*accepted-or-refused*/ gh_creates == 1 || nix_exc == EXC_Unso
 NIX_CANARY(DataArray_appendRangeDimension) __CPROVER_assigns(C13_GHOSTS)
 ;
 
+
+/* set and data-frame descriptors: "numbered 1..n in the order they were appended with no gaps" (created at index count+1, exactly once),
+   a data-frame descriptor refers to an existing column of an initialised frame */
+typedef struct { int kind; } SetDimension;
+typedef struct { int kind; } DataFrameDimension;
+typedef struct { size_t n; } vec_Column;
+typedef struct { int is_none; size_t ncols; } DataFrame;
+extern int gh_labels_sets; extern unsigned gh_created_column; extern int gh_created_with_column;
+static inline SetDimension DataArray_backend_createSetDimension(DataArray *self, ndsize_t index)
+{ SetDimension d; d.kind = 3; gh_creates++; gh_created_index = index; return d; }
+static inline void SetDimension_labels(SetDimension *d, const vec_string *labels)
+{ gh_labels_sets++; }
+static inline bool DataFrame_bool(const DataFrame *f)
+{ return f->is_none == 0; }
+NIX_THROWS static inline vec_Column DataFrame_columns(const DataFrame *f)
+{ vec_Column v; v.n = f->ncols; if (f->is_none) nix_exc = EXC_UninitializedEntity; return v; }    /* an uninitialised handle throws in ImplContainer::backend() */
+static inline DataFrameDimension DataArray_backend_createDataFrameDimension_col(DataArray *self, ndsize_t index, const DataFrame *frame, unsigned column_index)
+{ __CPROVER_assert(/*only-an-existing-column-of-an-initialised-frame-reaches-the-back-end*/ frame->is_none == 0 && column_index < frame->ncols, "the back end is only asked to point a descriptor at an existing column of an initialised frame");
+  DataFrameDimension d; d.kind = 4; gh_creates++; gh_created_index = index; gh_created_column = column_index; gh_created_with_column = 1; return d; }
+static inline DataFrameDimension DataArray_backend_createDataFrameDimension_all(DataArray *self, ndsize_t index, const DataFrame *frame)
+{ __CPROVER_assert(frame->is_none == 0, "the back end is only handed an initialised frame"); DataFrameDimension d; d.kind = 4; gh_creates++; gh_created_index = index; gh_created_with_column = 0; return d; }
+#define DF_OK(f) (__CPROVER_is_fresh(f, sizeof(DataFrame)) && ((f)->is_none == 0 || (f)->is_none == 1))
+NIX_THROWS SetDimension DataArray_appendSetDimension(DataArray *self, const vec_string *labels)
+__CPROVER_requires(C13_FRESH_ARR(self) && __CPROVER_is_fresh(labels, sizeof(vec_string)) && gh_labels_sets == 0)
+__CPROVER_ensures(/*created-once-at-next-index*/ gh_creates == 1 && gh_created_index == gh_dim_count + 1 && nix_exc == EXC_NONE)
+__CPROVER_ensures(/*labels-stored-iff-given*/ gh_labels_sets == (labels->n > 0 ? 1 : 0))
+NIX_CANARY(DataArray_appendSetDimension) __CPROVER_assigns(C13_GHOSTS, gh_labels_sets)
+;
+NIX_THROWS DataFrameDimension DataArray_appendDataFrameDimension_col(DataArray *self, const DataFrame *frame, unsigned column_index)
+__CPROVER_requires(C13_FRESH_ARR(self) && DF_OK(frame))
+__CPROVER_ensures(/*uninitialised-frame-rejected*/ frame->is_none ==> (nix_exc != EXC_NONE && gh_creates == 0))
+__CPROVER_ensures(/*column-index-past-the-last-column-rejected*/ (!frame->is_none && column_index >= frame->ncols) ==> (nix_exc == EXC_OutOfBounds && gh_creates == 0))
+__CPROVER_ensures(/*created-once-at-next-index-for-that-column*/ (!frame->is_none && column_index < frame->ncols) ==> (nix_exc == EXC_NONE && gh_creates == 1 && gh_created_index == gh_dim_count + 1 && gh_created_with_column == 1 && gh_created_column == column_index))
+NIX_CANARY(DataArray_appendDataFrameDimension_col) __CPROVER_assigns(C13_GHOSTS, gh_created_column, gh_created_with_column)
+;
+NIX_THROWS DataFrameDimension DataArray_appendDataFrameDimension_all(DataArray *self, const DataFrame *frame)
+__CPROVER_requires(C13_FRESH_ARR(self) && DF_OK(frame))
+__CPROVER_ensures(/*uninitialised-frame-rejected*/ frame->is_none ==> (nix_exc == EXC_UninitializedEntity && gh_creates == 0))
+__CPROVER_ensures(/*created-once-at-next-index*/ !frame->is_none ==> (nix_exc == EXC_NONE && gh_creates == 1 && gh_created_index == gh_dim_count + 1 && gh_created_with_column == 0))
+NIX_CANARY(DataArray_appendDataFrameDimension_all) __CPROVER_assigns(C13_GHOSTS, gh_created_column, gh_created_with_column)
+;
+
 /* front-end setters of src/Dimensions.cpp */
 typedef struct { int _s; } SampledDimensionF;
 typedef struct { int _r; } RangeDimensionF;
